@@ -33,8 +33,75 @@ fn add_l(s: &[u8]) -> Option<Vec<u8>> {
     if carry == 0 { Some(out) } else { None }
 }
 
+/// the eight points of small order (canonical encodings), RFC 8032 / libsodium's blacklist
+const TORSION: [&str; 8] = [
+    "0100000000000000000000000000000000000000000000000000000000000000", // order 1
+    "ecffffffffffffffffffffffffffffffffffffffffffffffffffffffffffff7f", // order 2
+    "0000000000000000000000000000000000000000000000000000000000000000", // order 4
+    "0000000000000000000000000000000000000000000000000000000000000080", // order 4
+    "26e8958fc2b227b045c3f489f2ef98f0d5dfac05d3c63339b13802886d53fc05", // order 8
+    "26e8958fc2b227b045c3f489f2ef98f0d5dfac05d3c63339b13802886d53fc85", // order 8
+    "c7176a703d4dd84fba3c0b760d10670f2a2053fa2c39ccc64ec7fd7792ac037a", // order 8
+    "c7176a703d4dd84fba3c0b760d10670f2a2053fa2c39ccc64ec7fd7792ac03fa", // order 8
+];
+/// further encodings that decode (leniently) to small-order points: x = 0 with the sign bit, y >= p
+const TORSION_ODD: [&str; 6] = [
+    "0100000000000000000000000000000000000000000000000000000000000080", // (0, 1), sign bit set
+    "ecffffffffffffffffffffffffffffffffffffffffffffffffffffffffffffff", // (0, -1), sign bit set
+    "eeffffffffffffffffffffffffffffffffffffffffffffffffffffffffffff7f", // y = p + 1
+    "eeffffffffffffffffffffffffffffffffffffffffffffffffffffffffffffff", // y = p + 1, sign bit set
+    "edffffffffffffffffffffffffffffffffffffffffffffffffffffffffffff7f", // y = p
+    "edffffffffffffffffffffffffffffffffffffffffffffffffffffffffffffff", // y = p, sign bit set
+];
+
+/// S + k*L for k = 1.. while it fits 256 bits, and S with each non-zero value of its top three bits
+fn scalar_variants(s: &[u8]) -> Vec<Vec<u8>> {
+    let mut out = vec![];
+    let mut cur = s.to_vec();
+    while let Some(n) = add_l(&cur) { out.push(n.clone()); cur = n; }
+    for v in 1u8..8 { let mut t = s.to_vec(); t[31] = (t[31] & 0x1f) | (v << 5); out.push(t); }
+    out
+}
+
 pub fn generate(g: &mut Gen) {
     g.case(vec!["selftest".to_string()]);
+    // EXHAUSTIVE finite domains, every run:
+    // (1) check_structure over all 256 x 256 values of (byte 0, byte 31) — the only bytes it reads
+    let filler = g.rng.bytes(62);
+    g.case(vec![format!("xtable {}", hex(&filler))]);
+    // (2) every small-order / oddly encoded public key x every small-order R (+ a non-canonical R), S = 0, 4 messages
+    let id_r = "eeffffffffffffffffffffffffffffffffffffffffffffffffffffffffffff7f";
+    for pk in TORSION.iter().chain(TORSION_ODD.iter()) {
+        let mut ops = vec![];
+        for r in TORSION.iter().chain(std::iter::once(&id_r)) {
+            for m in 0..4u8 { ops.push(format!("verify {} {:02x} {}{}", pk, m, r, "00".repeat(32))); }
+        }
+        g.case(ops);
+    }
+    // (3) for a valid signature: every S + k*L that fits 32 bytes (k = 1..15) and every value of the top three
+    //     bits of S; the sign bit of the key and of R flipped; both halves zeroed
+    for _ in 0..2 {
+        let r = &mut g.rng;
+        let sk: [u8; 32] = arr(&r.bytes(32)).unwrap();
+        let msg = { let n = r.below(80) as usize; r.bytes(n) };
+        let dsk = ed25519_dalek::SigningKey::from_bytes(&sk);
+        let pk = dsk.verifying_key().to_bytes().to_vec();
+        let sig = dsk.sign(&msg).to_bytes().to_vec();
+        let mut ops = vec![format!("verify {} {} {}", hex(&pk), hex(&msg), hex(&sig))];
+        for s2 in scalar_variants(&sig[32..]) {
+            let mut sg = sig[..32].to_vec(); sg.extend(s2);
+            ops.push(format!("verify {} {} {}", hex(&pk), hex(&msg), hex(&sg)));
+        }
+        let mut p2 = pk.clone(); p2[31] ^= 0x80;
+        ops.push(format!("verify {} {} {}", hex(&p2), hex(&msg), hex(&sig)));
+        let mut s2 = sig.clone(); s2[31] ^= 0x80;
+        ops.push(format!("verify {} {} {}", hex(&pk), hex(&msg), hex(&s2)));
+        let mut s3 = sig.clone(); for b in s3[32..].iter_mut() { *b = 0; }
+        ops.push(format!("verify {} {} {}", hex(&pk), hex(&msg), hex(&s3)));
+        let mut s4 = sig.clone(); for b in s4[..32].iter_mut() { *b = 0; }
+        ops.push(format!("verify {} {} {}", hex(&pk), hex(&msg), hex(&s4)));
+        g.case(ops);
+    }
     let flips = if g.thorough() { 24 } else { 6 };
     for i in 0..g.cases {
         let r = &mut g.rng;
@@ -155,6 +222,32 @@ pub fn run_case(case: &Case, out: &mut Out) {
                     }
                     None => out.panic(),
                 }
+            }
+            "xtable" => {
+                let Some(filler) = unhex(a(1)).filter(|f| f.len() == 62) else { out.reply("bad-op".into()); continue };
+                let mut table = vec![0u8; 256 * 32];
+                let mut bad = 0u32;
+                for b0 in 0..256usize {
+                    for b31 in 0..256usize {
+                        let mut ext = [0u8; 64];
+                        ext[0] = b0 as u8; ext[1..31].copy_from_slice(&filler[..30]); ext[31] = b31 as u8; ext[32..].copy_from_slice(&filler[30..]);
+                        let got = SecretKeyExtended::from_bytes(ext).is_ok();
+                        let got2 = SecretKeyExtended::try_from(ext).is_ok();
+                        // bit-level reading: low three bits of the scalar clear, bit 254 set, bit 255 clear
+                        let want = b0 % 8 == 0 && (b31 >> 6) == 1;
+                        if got != want || got2 != want {
+                            if bad == 0 {
+                                out.viol(format!("clamp-check byte0={:#04x} byte31={:#04x}", b0, b31),
+                                    format!("from_bytes accepted={} TryFrom accepted={} expected={} for key {}", got, got2, want, hex(&ext)));
+                            }
+                            bad += 1;
+                        }
+                        if got { table[b0 * 32 + b31 / 8] |= 1 << (b31 % 8); }
+                    }
+                }
+                out.cov("clamp-table-65536");
+                if bad > 0 { out.cov(format!("clamp-table-mismatches-{bad}")); }
+                out.ok(hex(&table));
             }
             "xcheck" | "xpk" | "xsign" => {
                 let Some(ext) = unhex(a(1)).and_then(|b| arr::<64>(&b)) else { out.reply("bad-op".into()); continue };
